@@ -275,7 +275,7 @@ fn runtime_cfg(p: &Program, script: &[(usize, Step)], (lane_buf, mode, budget): 
 /// All programs (command cascades; lane slots may be non-empty without a handler that triggers
 /// them, the script does) up to `max_size`, each with every script that can reach its non-empty
 /// slots, on the canonical schedule of every runtime parameter combination.
-fn run_runtime_grid(ctx: &Ctx, name: &'static str, max_size_full: usize, max_size_core: usize, wall_cap_s: f64) {
+fn run_runtime_grid(ctx: &Ctx, name: &'static str, min_size: usize, max_size_full: usize, max_size_core: usize, wall_cap_s: f64) {
     let t0 = Instant::now();
     let mut trees = Trees::default();
     let scripts = runtime_scripts();
@@ -284,7 +284,7 @@ fn run_runtime_grid(ctx: &Ctx, name: &'static str, max_size_full: usize, max_siz
     let mut per_size = vec![];
     let mut capped = false;
     let mut samples = vec![];
-    for total in 0..=max_size_core {
+    for total in min_size..=max_size_core {
         let params = runtime_params(total <= max_size_full);
         let bl = blocks(&mut trees, total, false, false);
         let mut work: Vec<(usize, u64, u64)> = vec![];
@@ -379,7 +379,7 @@ fn run_runtime_grid(ctx: &Ctx, name: &'static str, max_size_full: usize, max_siz
             "scripts": scripts.iter().map(|(n, s, _)| json!({"name": n, "steps": format!("{:?}", s.iter().map(|x| &x.1).collect::<Vec<_>>())})).collect::<Vec<_>>(),
             "runtime_parameters_full": "lane_buf {8, 4096} x mode {Eager, Burst} x budget {2, 64}",
             "runtime_parameters_core": "lane_buf 8 x mode {Eager, Burst} x budget {2, 64}, plus lane_buf 4096 / Eager / 64",
-            "max_total_size_full_parameters": max_size_full, "max_total_size_core_parameters": max_size_core,
+            "min_total_size": min_size, "max_total_size_full_parameters": max_size_full, "max_total_size_core_parameters": max_size_core,
             "wall_cap_s": wall_cap_s, "wall_cap_hit": capped, "per_size": per_size,
             "assignments_not_reached_by_any_script": tot.unreachable, "distinct_observation_digests": digests.len(),
         }),
@@ -480,27 +480,32 @@ fn main() {
         std::process::exit(0);
     }
     let quick = ctx.quick();
-    // E4 (a): all ten slots
-    run_e4(&ctx, if quick {
-        E4Spec { name: "e4-all-slots", min_size: 0, max_size_1: 3, max_size_2: 3, wall_cap_s: 25.0, with_start_stop: true }
-    } else {
-        E4Spec { name: "e4-all-slots", min_size: 0, max_size_1: 4, max_size_2: 4, wall_cap_s: 300.0, with_start_stop: true }
-    });
-    // E4 (b): cascades started by commands (on_start / on_stop left empty), one size deeper
-    run_e4(&ctx, if quick {
-        E4Spec { name: "e4-command-cascades", min_size: 0, max_size_1: 4, max_size_2: 4, wall_cap_s: 25.0, with_start_stop: false }
-    } else {
-        E4Spec { name: "e4-command-cascades", min_size: 0, max_size_1: 5, max_size_2: 5, wall_cap_s: 330.0, with_start_stop: false }
-    });
-    if !quick {
-        // the next size as far as the wall budget allows (reported as not exhaustive when capped)
-        run_e4(&ctx, E4Spec { name: "e4-command-cascades-size6", min_size: 6, max_size_1: 6, max_size_2: 0, wall_cap_s: 240.0, with_start_stop: false });
-    }
-    // E4 (c): lane commands, link and sync requests, tiny lane -> runtime channels, burst delivery
-    if quick {
-        run_runtime_grid(&ctx, "e4-runtime-grid", 2, 2, 20.0);
-    } else {
-        run_runtime_grid(&ctx, "e4-runtime-grid", 3, 4, 300.0);
+    // (a grid worker process re-executes this binary only for its own schedule leg: skip the E4 legs there)
+    if !vcommon::sched::is_worker() {
+        // E4 (a): all ten slots
+        run_e4(&ctx, if quick {
+            E4Spec { name: "e4-all-slots", min_size: 0, max_size_1: 3, max_size_2: 3, wall_cap_s: 25.0, with_start_stop: true }
+        } else {
+            E4Spec { name: "e4-all-slots", min_size: 0, max_size_1: 4, max_size_2: 4, wall_cap_s: 300.0, with_start_stop: true }
+        });
+        // E4 (b): cascades started by commands (on_start / on_stop left empty), one size deeper
+        run_e4(&ctx, if quick {
+            E4Spec { name: "e4-command-cascades", min_size: 0, max_size_1: 4, max_size_2: 4, wall_cap_s: 25.0, with_start_stop: false }
+        } else {
+            E4Spec { name: "e4-command-cascades", min_size: 0, max_size_1: 5, max_size_2: 5, wall_cap_s: 330.0, with_start_stop: false }
+        });
+        if !quick {
+            // the next size as far as the wall budget allows (reported as not exhaustive when capped)
+            run_e4(&ctx, E4Spec { name: "e4-command-cascades-size6", min_size: 6, max_size_1: 6, max_size_2: 0, wall_cap_s: 240.0, with_start_stop: false });
+        }
+        // E4 (c): lane commands, link and sync requests, tiny lane -> runtime channels, burst delivery
+        if quick {
+            run_runtime_grid(&ctx, "e4-runtime-grid", 0, 2, 2, 20.0);
+        } else {
+            run_runtime_grid(&ctx, "e4-runtime-grid", 0, 3, 3, 120.0);
+            // the next size on the core parameters as far as the wall budget allows
+            run_runtime_grid(&ctx, "e4-runtime-grid-size4", 4, 3, 4, 150.0);
+        }
     }
     // E1 (c): the same scripts under every schedule with one deviation, for a subset of programs
     {
@@ -508,7 +513,7 @@ fn main() {
         let mut ps: Vec<Program> = vec![];
         for total in 0..=2 {
             for b in blocks(&mut trees, total, false, false) {
-                let stride = if total < 2 { 1 } else if quick { 61 } else { 7 };
+                let stride = if total < 2 { 1 } else if quick { 5 } else { 3 };
                 let mut ix = 0;
                 while ix < b.count {
                     ps.push(b.program(ix));
@@ -526,7 +531,7 @@ fn main() {
                 }
             }
         }
-        run_grid(&ctx, GridSpec { name: "e1-runtime-d1".into(), cfgs, bound: 1, max_exec_per_cfg: 50_000, wall_cap_s: if quick { 12.0 } else { 200.0 } });
+        run_grid(&ctx, GridSpec { name: if quick { "e1-runtime-d1".into() } else { "e1-runtime-d2".into() }, cfgs, bound: if quick { 1 } else { 2 }, max_exec_per_cfg: 50_000, wall_cap_s: if quick { 12.0 } else { 150.0 } });
     }
     // E1: the smallest programs under every schedule with a bounded number of deviations; the
     // remote is linked to v, w and m so that the runtime is writing events while handlers run
